@@ -28,7 +28,7 @@ CHECKS["C20"] = {
 CHECKS["C04"] = {
     "level": "model_checking",
     "assumptions": ["sm3ref (validated against the GB/T 32905 appendix vectors at start) is the digest oracle",
-                    "stream content is position-determined, so a state is a function of the live object's memory; messages longer than L bytes are not explored"],
+                    "stream content is position-determined (constant / seeded / alternating across Resets), so a state is a function of the live object's memory; between L bytes and the 2^29-byte waypoints of the sm3-huge part no length is explored"],
     "parts": [
         {"name": "sm3-history", "pkg": "sm3", "run": "TestVX_C04", "public_files": ["sm3/C04_pub_test.go"],
          "shards": {"quick": 2, "thorough": 4}},
